@@ -1,4 +1,61 @@
-From Coq Require Import List ZArith.
-From V Require Import C10.Model C10.Proofs.
-Theorem C10_placeholder : True. Proof. exact placeholder10. Qed.
-Print Assumptions C10_placeholder.
+(* C10 — Positioning tasks converge and the motor is never left powered indefinitely.
+   Property theorems only: each is closed by `exact` of a lemma proved in C10/Frame.v + C10/Proofs.v.
+   The model (C10/Model.v) is the whole roller-shutter module of supla_esp_rs_fb.c for one shutter; the theorems are
+   stated for an arbitrary record `o` of floating-point sub-expressions satisfying the relational facts `fp_ok`
+   of C09 (the harness runs the bit-exact binary64 instance). *)
+From Coq Require Import List ZArith Lia.
+Import ListNotations.
+From V Require Import Base.U32 Base.Iface Gen.RsConsts C09.Model C09.Proofs C10.Model C10.Frame C10.Proofs.
+Local Open Scope Z_scope.
+
+(* Bounded power, every situation in which no travel can be accounted (position unknown: not calibrated, calibration
+   lost, auto-calibration running / aborted / re-requested; or position already at the end stop of the direction).
+   d     : ANY state of the module (any task, any auto-calibration step, any flags, any pending delayed start) in which
+           exactly the output of direction `up` is energised, the last callback stamp is current, the run-time counter is
+           at most ten minutes and the report stamp is at most 2^31 us old;
+   evs   : ANY list of timer callbacks (interval 0 < dt <= tau <= 1 s, ANY sensor reading per callback);
+   on_run: no falling edge of that output is logged during the run (the output stays energised).
+   Then the time seen by the run-time counter is at most 600 s + 200 ms + tau.  `counted` leaves out exactly the
+   callbacks at which the power-consumption detection of a board with the auto-calibration flag holds the clock back
+   (no movement sensed yet, start stamp younger than 2 s). *)
+Theorem C10_bounded_power_counted : forall o, fp_ok o -> forall up k tau d evs,
+  wfk k -> 0 <= tau <= 1000000 -> Forall (fun e => 0 < fst e <= tau) evs ->
+  only up d -> NT k up d -> stamped k d -> 0 <= carry_of up d <= TEN_MINUTES_US -> 0 <= age_c k d < 2147483648 ->
+  on_run o up k d evs ->
+  counted o k d evs <= TEN_MINUTES_US - carry_of up d + REPORT_PERIOD_US + tau.
+Proof. exact C10_bounded_power_counted_thm. Qed.
+Print Assumptions C10_bounded_power_counted.
+
+(* the same for a board without the auto-calibration flag: the whole elapsed time is bounded *)
+Theorem C10_bounded_power_uncalibrated : forall o, fp_ok o -> forall up k tau d evs,
+  wfk k -> k_autocal_flag k = false -> 0 <= tau <= 1000000 -> Forall (fun e => 0 < fst e <= tau) evs ->
+  only up d -> NT k up d -> stamped k d -> 0 <= carry_of up d <= TEN_MINUTES_US -> 0 <= age_c k d < 2147483648 ->
+  on_run o up k d evs ->
+  elapsed evs <= TEN_MINUTES_US + REPORT_PERIOD_US + tau.
+Proof. exact C10_bounded_power_thm. Qed.
+Print Assumptions C10_bounded_power_uncalibrated.
+
+(* one callback: what happens to an energised output (building block of the above, also for a single late callback) *)
+Theorem C10_callback_keeps_accounts : forall o, fp_ok o -> forall up k d dt sm d' el,
+  wfk k -> only up d -> NT k up d -> 0 <= carry_of up d -> 0 <= dt < 4294967296 -> stamped k d ->
+  d' = C10.Model.step o k d (Cb dt sm) ->
+  nofall up (outs d') ->
+  el = (if frozen_cb k (cb_entry k d dt) (sensor k (cb_entry k d dt) sm) then 0 else dt) ->
+  carry_of up d + el < 4294967296 ->
+  only up d' /\ NT k up d' /\ carry_of up d' = carry_of up d + el /\ stamped k d' /\ C10.Model.now d' = C10.Model.now d + dt /\
+  C10.Model.last_comm d' = (if REPORT_PERIOD_US <=? u32 (u32 (k_boot k + C10.Model.now d + dt) - C10.Model.last_comm d)
+                            then u32 (k_boot k + C10.Model.now d + dt) else C10.Model.last_comm d) /\
+  ~ ((REPORT_PERIOD_US <=? u32 (u32 (k_boot k + C10.Model.now d + dt) - C10.Model.last_comm d)) = true /\ TEN_MINUTES_US < carry_of up d') /\
+  (start_time d <> 0 -> start_time d' = start_time d).
+Proof. exact step_cb_only. Qed.
+Print Assumptions C10_callback_keeps_accounts.
+
+(* every command of the module passes through set_relay, which never touches the run-time counters and can only
+   forget a position (a sub-step); an immediate switch-off always produces the falling edge *)
+Theorem C10_set_relay_is_substep : forall up k d v c s, sub up d (set_relay k d v c s).
+Proof. exact sub_set_relay. Qed.
+Print Assumptions C10_set_relay_is_substep.
+Theorem C10_switch_off_falls : forall up k d c,
+  powered up d = true -> ~ nofall up (outs (set_relay k d RELAY_OFF c false)).
+Proof. exact set_relay_off_falls. Qed.
+Print Assumptions C10_switch_off_falls.
